@@ -191,3 +191,82 @@ class CauchyGeometry(Unit):
 
 
 UNITS = [AlphaTr(), CauchyGeom(), CauchyGeometry()]
+
+
+# ---- C16.O1: the final guards of the truncated-CG solvers ------------------------------------------------------------------
+class FrameSpec(LoopSpec):
+    """frame-only cut (see pyvc.transform): no invariant, the loop is replaced by a havoc of what its body may write"""
+    names = ()
+
+
+def optim_shadow():
+    if "optim_cut" not in _SH:
+        spec = {"tcg.frame": FrameSpec()}
+        _SH["optim_cut"] = shadow("cobyqa.subsolvers.optim", specs=spec,
+                                  cuts={("tangential_byrd_omojokun", 0): ("tcg.frame", "frame"), ("tangential_byrd_omojokun", 1): ("tcg.frame", "frame")},
+                                  expect_loops={"tangential_byrd_omojokun": 2})
+    return _SH["optim_cut"]
+
+
+class TangentialGuard(Unit):
+    """tangential_byrd_omojokun: whatever the two loops do (they are havocked), the step returned after the boundary-improvement phase is
+    either the step the truncated CG ended with (`step_base`, a copy taken before the phase) or a step whose model value
+    grad.s + s.H s / 2, evaluated with that very expression, is not larger than the one of `step_base`."""
+    name = "geometry.tangential_final_guard"
+    props = ("C16",)
+    fmodel = "ORDER"
+    functions = [("cobyqa.subsolvers.optim", "tangential_byrd_omojokun")]
+    assumptions = ["frame-only loop cuts: the bodies of the two while loops are not explored in this unit (bounded unit subsolvers.bounded_tangential "
+                   "covers them); everything they can write is havocked"]
+
+    def run(self, c):
+        m = optim_shadow()
+        n = z3.Int(c.fresh_name("n"))
+        c.assume(n >= 1)
+        grad = vecs.fresh_vec("grad", n, finite=True)
+        xl = vecs.fresh_vec("xl", n, nonan=True)
+        xu = vecs.fresh_vec("xu", n, nonan=True)
+        delta = SF.fresh("delta", finite=True)
+        c.assume(delta.r > 0)
+        hp_cache = {}
+
+        def hess_prod(v):
+            key = v.cid
+            if key not in hp_cache:
+                hp_cache[key] = (v, vecs.fresh_vec("Hv", n, finite=True))
+            return hp_cache[key][1]
+        copies = []
+        npx = m.__dict__["np"]
+        real_copy = type(npx).copy
+
+        class NPc(type(npx)):
+            def copy(self, x):
+                r = real_copy(self, x)
+                copies.append((x, getattr(x, "cid", None), r))
+                return r
+        m.__dict__["np"] = NPc()
+        m.__dict__["_alpha_tr"] = lambda step, sd, delta: SF.fresh("alpha_tr", finite=True)
+        try:
+            improve = bool(c.choose("improve_tcg", 2, ["on", "off"]) == 0)
+            kind, res = call_expecting(c, "C08.tangential", lambda: m.tangential_byrd_omojokun(grad, hess_prod, xl, xu, delta, False, improve_tcg=improve), ())
+        finally:
+            m.__dict__["np"] = npx
+        # copies made inside the function, in order: the working gradient, the saved original gradient, then (only if the
+        # improvement phase runs) step_base, the step the truncated CG ended with
+        # the model of the statement with the caller's gradient, written with the grouping Python gives to `0.5 * s @ H(s)`
+        q = lambda s: grad @ s + (0.5 * s) @ hess_prod(s)
+        c.oblige("C16.tangential.caller_gradient_not_modified", z3.BoolVal(grad.version == 0), props=["C16", "C11"])
+        step_copies = [r for (src, cid0, r) in copies if cid0 != grad.cid]
+        if not step_copies:
+            c.oblige("C16.tangential.no_improvement_phase_returns_tcg_step", z3.BoolVal(True), props=["C16"])
+            return
+        base = step_copies[-1]
+        if res is base:
+            c.oblige("C16.tangential.guard_restores_base_step", z3.BoolVal(True), props=["C16"])
+            return
+        qr, qb = q(res), q(base)
+        c.oblige("C16.tangential.improved_step_not_worse_than_tcg_step", z3.Not(tobool(qr > qb)), props=["C16"],
+                 note="the step returned after the boundary-improvement phase has a larger model value than the truncated-CG step it started from")
+
+
+UNITS.append(TangentialGuard())
